@@ -56,7 +56,7 @@ def run(ctx):
     # on every path (two flows can then share state only through a hash collision, never by construction)
     from rules.c06 import cookie_inputs
     for ok_, key_, det_, loc_ in cookie_inputs(F):
-        if key_.startswith('generate:feeds:') or key_.startswith('generate:write:'):
+        if key_.startswith('generate:feeds:') or key_.startswith('generate:write:') or key_ == 'generate:families-distinct':
             rep.check(r2, ok_, 'key:' + key_, det_, loc_)
     tcp = F.fn('layer_4::tcp::repl')
     callers = set()
